@@ -162,6 +162,17 @@ func (e *vestEnv) observe(ctx sdk.Context) []*big.Int {
 			out = append(out, bi(1), bi(b2i(tr.Genesis)), bi(b2i(tr.FromGenesisPool)), bi(b2i(tr.FromGenesisAccount)))
 		}
 	}
+	// the two summary queries
+	if r, err := app.CfevestingKeeper.VestingsSummary(sdk.WrapSDKContext(ctx), &vesttypes.QueryVestingsSummaryRequest{}); err == nil {
+		out = append(out, r.VestingAllAmount.BigInt(), r.VestingInPoolsAmount.BigInt(), r.VestingInAccountsAmount.BigInt(), r.DelegatedVestingAmount.BigInt())
+	} else {
+		out = append(out, bi(-999), bi(-999), bi(-999), bi(-999))
+	}
+	if r, err := app.CfevestingKeeper.GenesisVestingsSummary(sdk.WrapSDKContext(ctx), &vesttypes.QueryGenesisVestingsSummaryRequest{}); err == nil {
+		out = append(out, r.VestingAllAmount.BigInt(), r.VestingInPoolsAmount.BigInt(), r.VestingInAccountsAmount.BigInt(), r.DelegatedVestingAmount.BigInt())
+	} else {
+		out = append(out, bi(-999), bi(-999), bi(-999), bi(-999))
+	}
 	return out
 }
 
